@@ -114,8 +114,8 @@ PROPS = {
     ),
     "C17": dict(
         crate="mon_text", cmd="c17", level="exploration",
-        floors={"quick": {"games": 5000, "castling_moves": 500, "databases_with_unnumbered_black_castling": 50, "games_without_comments": 1000, "games_with_comments": 1000, "result_*": 5000, "layout_final_newline_false": 200, "reader_mode_1": 1000, "reader_mode_2": 1000, "reader_mode_3": 1000, "games_replayed_on_board": 5000, "games_with_256_or_more_full_moves": 50}},
-        rule="databases of 1-12 games (reference walks from the start position, SAN from the reference writer, 7-18 Lichess-style tag lines, no / clock / eval+clock / mixed comments with Lichess's `n...` numbering of Black's move after a comment, all four result tokens, with/without final newline, 1-2 blank lines between games) rendered by the monitor's writer; "
+        floors={"quick": {"games": 5000, "castling_moves": 500, "databases_with_unnumbered_black_castling": 50, "games_without_comments": 1000, "games_with_comments": 1000, "result_*": 5000, "layout_final_newline_false": 200, "reader_mode_1": 1000, "reader_mode_2": 1000, "reader_mode_3": 1000, "games_replayed_on_board": 5000, "games_with_256_or_more_full_moves": 50, "games_from_setup_position": 2000, "replayed_moves_with_full_square_disambiguation": 50}},
+        rule="databases of 1-12 games (reference walks from the start position, one game in six from a set-up position with [FEN]/[SetUp] tags in which two to four like pieces reach one square (movetext with file, rank and full-square disambiguation), SAN from the reference writer, 7-18 Lichess-style tag lines, no / clock / eval+clock / mixed comments with Lichess's `n...` numbering of Black's move after a comment, all four result tokens, with/without final newline, 1-2 blank lines between games) rendered by the monitor's writer; "
              "each database read under 20 (thorough: 40) reader configurations: chunk sizes {1,2,3,5,7,8,13,64,1000,8192,|D|-1,|D|,|D|+1} x readers that return full reads / random short reads / one byte at a time / short reads aligned just before or after every delimiter; "
              "yielded games compared with the written ones (count, tag map, SAN texts in order, exact comment text, no Err items), and replayed through pgn_to_bb + make to the reference end position; distinct_nontrivial = distinct (database, configuration) pairs with >= 2 games and >= 1 castling move",
         assumptions=BASE_ASSUME + ["tag values are ASCII without quotes; reader I/O errors are not injected"],
